@@ -111,6 +111,23 @@ def _bounded_worker(job):
         return {"crash": f"{type(e).__name__}: {e}\n{traceback.format_exc(limit=8)}"}
 
 
+def _proof_worker(job):
+    prop, tier, seed, modname, funcname, args = job
+    try:
+        mod = importlib.import_module(modname)
+        sub = Check(prop, tier, seed)
+        getattr(mod, funcname)(sub, *args)
+        sub.discharge(workers=1)
+        return {"obligations": [dict(o.to_json(), function=o.function) for o in sub.obligations],
+                "failures": [dict(source=f.source, key=f.key, message=f.message, witness=_jsonable(f.witness),
+                                  replay=_jsonable(f.replay), natively_confirmed=f.natively_confirmed,
+                                  extra=_jsonable(f.extra)) for f in sub.failures],
+                "undecided": sub.undecided, "errors": sub.errors, "notes": sub.notes,
+                "cross_checks": sub.cross_checks, "functions": sub.functions}
+    except Exception as e:
+        return {"crash": f"{type(e).__name__}: {e}\n{traceback.format_exc(limit=8)}"}
+
+
 class Check:
     def __init__(self, prop, tier="quick", seed=0):
         self.prop = prop
@@ -173,7 +190,10 @@ class Check:
             o.backend, o.seconds, o.model, o.detail = backend, secs, model, detail or ""
             return o
 
-        if pend:
+        if pend and workers <= 1:
+            for o in pend:
+                run(o)
+        elif pend:
             with ThreadPoolExecutor(max_workers=workers) as ex:
                 list(ex.map(run, pend))
         for o in pend:
@@ -200,6 +220,35 @@ class Check:
             replay=rep.get("replay"),
             extra={"obligation": o.name, "kind": o.kind, "function": o.function, "backend": o.backend,
                    "model": _jsonable(o.model), "solver_output": o.detail[:2000], "native": rep}))
+
+    # ------------------------------------------------------------------ proof jobs in worker processes
+    def parallel(self, modname, funcname, arglist, workers=16):
+        """run ``modname.funcname(sub_check, *args)`` for every args in worker processes; each worker
+        generates its obligations from the current source, discharges them and replays counterexamples;
+        the results are merged here.  (Path enumeration is the expensive, single-threaded part.)"""
+        jobs = [(self.prop, self.tier, self.seed, modname, funcname, a) for a in arglist]
+        if not jobs:
+            return
+        ctx = mp.get_context("fork")
+        with ctx.Pool(min(workers, len(jobs))) as pool:
+            results = pool.map(_proof_worker, jobs, chunksize=1)
+        for job, res in zip(jobs, results):
+            if "crash" in res:
+                self.errors.append(f"proof job {funcname}{job[5]!r} crashed: {res['crash']}")
+                continue
+            for od in res["obligations"]:
+                o = Obligation(od["name"], od["kind"], od.get("function"))
+                o.status, o.backend, o.seconds, o.detail = od["status"], od["backend"], od["seconds"], od["detail"]
+                self.obligations.append(o)
+            for fd in res["failures"]:
+                self.failures.append(Failure(**fd))
+            self.undecided.extend(res["undecided"])
+            self.errors.extend(res["errors"])
+            self.notes.extend(n for n in res["notes"] if n not in self.notes)
+            self.cross_checks += res["cross_checks"]
+            for fn_ in res["functions"]:
+                if fn_ not in self.functions:
+                    self.functions.append(fn_)
 
     # ------------------------------------------------------------------ finite-domain obligations
     def finite(self, name, cases, pred, function=None, key_fn=None, describe=None):
@@ -304,6 +353,15 @@ class Check:
             violations.append(fl)
         lines = []
         os.makedirs(os.path.join(REPLAYS, self.prop), exist_ok=True)
+        uniq = {}
+        for fl in violations:  # one VIOLATION line per distinct key; natively confirmed witnesses first
+            cur = uniq.get(fl.key)
+            if cur is None or (fl.natively_confirmed and not cur.natively_confirmed):
+                fl.extra["same_key_failures"] = (cur.extra.get("same_key_failures", 1) + 1) if cur else 1
+                uniq[fl.key] = fl
+            else:
+                cur.extra["same_key_failures"] = cur.extra.get("same_key_failures", 1) + 1
+        violations = list(uniq.values())
         for fl in violations:
             path = os.path.join("replays", self.prop, _slug(fl.key) + ".json")
             with open(os.path.join(ROOT, path), "w") as f:
@@ -318,10 +376,9 @@ class Check:
         if nob == 0 and not self.bounded_results:
             self.errors.append("zero obligations and zero bounded contracts generated")
         self._write_evidence(len(violations), known_hits)
-        for ln in lines[:40]:
+        for ln, fl in list(zip(lines, violations))[:40]:
             print(ln)
-            fl = violations[lines.index(ln)]
-            print("   ", fl.message[:300].replace("\n", " "))
+            print("   ", fl.message[:400].replace("\n", " "))
         if len(lines) > 40:
             print(f"... {len(lines) - 40} more violations (see replays/{self.prop}/)")
         for u in self.undecided[:20]:
@@ -405,11 +462,18 @@ def _jsonable(x):
 
 
 def smt_thunk(pc, goal, timeout=30, logic="auto", defs=(), strings=False):
+    """VC  (and pc defs) -> goal.  The SMT-LIB text is built *now* (z3's Python API is not thread-safe);
+    the returned thunk only runs solver processes."""
+    import z3
+
     from . import smt
+    assertions = list(pc) + list(defs) + [z3.Not(goal)]
+    lg = smt.guess_logic(assertions) if logic == "auto" else logic
+    text = smt.to_smt2(assertions, lg)
 
     def thunk():
-        verdict, backend, secs, model, raw = smt.check_valid(pc, goal, timeout=timeout, logic=logic, defs=defs,
-                                                              strings=strings)
+        status, backend, secs, model, raw = smt.portfolio(text, timeout, strings=strings)
+        verdict = {"unsat": "proved", "sat": "refuted"}.get(status, "unknown")
         return verdict, backend, secs, model, raw
     return thunk
 
@@ -417,9 +481,12 @@ def smt_thunk(pc, goal, timeout=30, logic="auto", defs=(), strings=False):
 def cover_thunk(pc, timeout=20, logic="auto", strings=False):
     """reachability: pc must be satisfiable, otherwise a precondition is vacuous"""
     from . import smt
+    assertions = list(pc)
+    lg = smt.guess_logic(assertions) if logic == "auto" else logic
+    text = smt.to_smt2(assertions, lg)
 
     def thunk():
-        status, backend, secs, model, raw = smt.check_sat(pc, timeout=timeout, logic=logic, strings=strings)
+        status, backend, secs, model, raw = smt.portfolio(text, timeout, strings=strings)
         if status == "sat":
             return "proved", backend, secs, model, raw
         if status == "unsat":
